@@ -33,6 +33,7 @@ MAX_INT_BITS = 100_000  # Integer results larger than this are refused
 MAX_SEQUENCE_LENGTH = 1_000_000  # Longest str/list/tuple a repetition may build
 MAX_FACTORIAL_ARG = 5_000
 MAX_ROUND_DIGITS = 10_000  # |ndigits| accepted by round()
+MAX_KEYED_ELEMENTS = 1_000  # Elements a function-valued argument (key=...) may be applied to
 
 
 def _bounded_pow(base: Any, exponent: Any) -> Any:
@@ -616,6 +617,10 @@ class Mitochondria:
                     if any(kw.arg is None for kw in node.keywords):
                         raise ValueError("Argument unpacking (**) is not supported")
                     kwargs = {kw.arg: self._compute_node(kw.value) for kw in node.keywords}
+                    if any(callable(v) for v in (*args, *kwargs.values())):
+                        # a function-valued argument (key=...) is applied per element: bound how many
+                        if sum(_deep_size(a, MAX_KEYED_ELEMENTS) for a in args) > MAX_KEYED_ELEMENTS:
+                            raise ValueError("Too many elements for a function-valued argument")
                     if callable(func):
                         return func(*args, **kwargs)
                     return func  # Constants like pi, e
